@@ -186,6 +186,29 @@ func Smoke(r *FuncResult, work string, timeoutS int) string {
 	return "unknown(" + res.Status + ")"
 }
 
+// Reachable checks the path condition of one obligation against the quantifier-free hypotheses in force at it:
+// "unsat" means the obligation sits on a path that the contract's assumptions (or the code) exclude — dead code
+// or a vacuity hole; "sat"/"unknown" otherwise. A diagnostic (the cover check behind each obligation).
+func Reachable(r *FuncResult, o *Obligation, work string, timeoutS int) string {
+	p := r.Pool
+	if o.PC.IsTrue() {
+		return "sat"
+	}
+	memo := map[*Term]bool{}
+	var hyps []*Term
+	for _, h := range r.Hyps[:o.NHyps] {
+		if !hasQuantMemo(h, memo) {
+			hyps = append(hyps, h)
+		}
+	}
+	if hasQuantMemo(o.PC, memo) {
+		return "unknown"
+	}
+	hyps = append(hyps, o.PC)
+	res := Solve(work, "reach."+o.Name, p.Script(hyps, "reachability of "+o.Name), timeoutS, 1, "race")
+	return res.Status
+}
+
 func (o *Obligation) String() string {
 	return fmt.Sprintf("%s [%s] %s", o.Name, strings.Join(o.Tags, ","), o.Text)
 }
